@@ -31,13 +31,14 @@ func (o *OpRec) OK() bool       { return o.Ret != 0 && o.Res != nil && o.Res.Err
 
 // HandlerRec is one handler invocation.
 type HandlerRec struct {
-	RPC    int
-	Method string
-	Info   *HandlerInfo
-	Start  int64
-	End    int64
-	Err    error
-	TStart time.Duration
+	RPC          int
+	Method       string
+	Info         *HandlerInfo
+	Start        int64
+	End          int64
+	Err          error
+	CtxDoneAtEnd bool // the handler's context had ended when it returned
+	TStart       time.Duration
 }
 
 // FrameRec is one frame on a carrier.
@@ -120,6 +121,7 @@ func BuildHistory(w *World, evs []simrt.Event, res *simrt.Result) *History {
 				hr := l[0]
 				openH[int(e.A)] = l[1:]
 				hr.End = e.Seq
+				hr.CtxDoneAtEnd = e.B != 0
 				hr.Err, _ = e.P.(error)
 			}
 		case EvFrameEmit:
